@@ -50,6 +50,18 @@ CLAIMED = {
     text="Unbounded proof over the number of records, every index, every (skip, count) incl. None, and every truncation offset (the cut is a symbolic integer); 'equal in every field' composes with C01's round-trip lemma.",
     note="Trusted: PyVC builtin models and the binary-file model (read/seek/append-write); monotonicity of record boundaries used as a lemma; messages are valid (append refuses others).",
     design="9/C15"),
+ "C05": dict(
+    engine="pyvc+cvc",
+    technique="contract-based deductive verification: PyVC VCs from the live ctrl_if.py/ctrl_if_trx.py/fake_trx.py/data_if.py/fake_pm.py; per-(verb, argc) contracts of parse_cmd/ctrl_cmd_handler against a command-semantics table written from the statement; framing contracts of send_response/handle_rx over a structured model of canonical command text; loop invariant for FakePM.measure; z3",
+    text="Proof at token level for every verb, every argument count 0..3 (SETFH 4..131 = up to 64 channels, enumerated completely), symbolic integer arguments and an arbitrary prior state (class invariant), hence any history. Framing proved for canonical command text of any size up to 1024 octets.",
+    note="Trusted: PyVC builtin models; token model (decimal literal <-> int) and the structured model of str.decode/startswith/strip/split/join on canonical command text; power_event_handler via its C12 contract. trxcon's response parser (trx_if.c) is covered by the C part when present (see evidence: functions under contract); until then that clause rests on the proved response format.",
+    design="9/C05"),
+ "C14": dict(
+    engine="pyvc+cvc",
+    technique="contract-based deductive verification: exception-freedom and frame contracts on every Python receive path (parse_msg for every octet string, recv_tx_msg/recv_rx_msg/recv_data_msg, handle_rx on undecodable / non-command / non-numeric / short commands for every verb and argument position, capture reader on arbitrary file content with trivial loop invariants), threshold class invariant preserved by every command; PyVC + z3",
+    text="Unbounded over datagram/file contents and lengths (symbolic byte arrays), all verbs and argument-position junk patterns; implicit CPython exceptions (IndexError, struct.error, TypeError, UnicodeDecodeError, ValueError from int()) are modelled as paths and must be infeasible or caught.",
+    note="Trusted: PyVC builtin models incl. which builtins raise what; datagram classes for TRXC as listed in the evidence assumptions; trxcon's C receive paths are covered by the C part when present.",
+    design="9/C14"),
 }
 NOT_YET = "check not built yet in this session (design in DESIGN.md section 9); will be claimed when its obligations are discharged"
 
